@@ -28,22 +28,59 @@ WIDGET = Opaque("Widget")
 NOPOS = -7777  # stands for the `None` position of a (None, None) answer
 
 
+_WAT = z3.Function("ListWalker.at", S.opaque_sort("ListWalker"), z3.IntSort(), z3.IntSort(), S.opaque_sort("Widget"))
+
+
+def widget_at(walker, ver, position):
+    """"Positions name widgets": the widget a walker in state version `ver` has at `position` -- whichever of get_focus /
+    get_prev / get_next reports the position reports this widget with it, and set_focus(position) makes it the focus
+    (SimpleListWalker / SimpleFocusListWalker: `self[position]`).  Opaque individuals stand for behaviour, so a walker that
+    builds an equal widget afresh for every answer is covered."""
+    return V.SOpaque("Widget", _WAT(walker.e, V._z(ver), V._z(position)), {})
+
+
+def _answer_ver(r, default):
+    """The walker state version an answer (widget | None, position) of get_focus / get_prev / get_next was computed for:
+    the second argument of the uninterpreted application that is its position component."""
+    e = getattr(r[1], "e", None)
+    if e is not None and z3.is_app(e) and e.num_args() >= 2 and z3.is_int_value(e.arg(1)):
+        return e.arg(1).as_long()
+    return default
+
+
 class ListWalkerProtocol(Protocol):
     kind = "ListWalker"
 
+    def bump(self, st, recv):
+        st.ghost.setdefault("lw_prev_ver", {})[str(recv.e)] = self.version(st, recv)  # (read by _ens_set_focus)
+        super().bump(st, recv)
+
     def _ens_set_focus(st, w, a, r):
         # evaluated after the state version was bumped: speaks about the walker *after* a successful set_focus
-        g = PROTOCOLS["ListWalker"].call_quiet(st, w, "get_focus", {})
-        return [neg(mk_bool(g[0].isnone)), g[1] == a["position"]]
+        P = PROTOCOLS["ListWalker"]
+        g = P.call_quiet(st, w, "get_focus", {})
+        before = st.ghost.get("lw_prev_ver", {}).get(str(w.e), 0)
+        return [neg(mk_bool(g[0].isnone)), g[1] == a["position"], eq(val(g[0]), widget_at(w, before, a["position"]))]
 
     def _ens_neighbour(st, w, a, r):
         # (None, None) is modelled as (None, NOPOS): an integer no walker uses as a position (see `methods`)
-        return [ite(mk_bool(r[0].isnone), r[1] == NOPOS, both(neg(r[1] == NOPOS), neg(r[1] == a["position"])))]
+        at = widget_at(w, _answer_ver(r, PROTOCOLS["ListWalker"].version(st, w)), r[1])
+        return [ite(mk_bool(r[0].isnone), r[1] == NOPOS, both(neg(r[1] == NOPOS), neg(r[1] == a["position"]), eq(val(r[0]), at)))]
 
     def _ens_get_focus(st, w, a, r):
-        return [either(mk_bool(r[0].isnone), neg(r[1] == NOPOS))]
+        at = widget_at(w, _answer_ver(r, PROTOCOLS["ListWalker"].version(st, w)), r[1])
+        return [either(mk_bool(r[0].isnone), both(neg(r[1] == NOPOS), eq(val(r[0]), at)))]
+
+    def _ens_positions(st, w, a, r):
+        # a walker that has a focus lists at least one position (SimpleListWalker / SimpleFocusListWalker: range(len(self)))
+        from pyvc import seqs as Q
+
+        g = PROTOCOLS["ListWalker"].call_quiet(st, w, "get_focus", {})
+        return [either(mk_bool(g[0].isnone), Q.seq_len(r) >= 1)]
 
     methods = {
+        # positions(reverse=False): optional (`hasattr(walker, "positions")`); the positions in list order (reversed order)
+        "positions": PMethod(ListOf(Int, tuple_=True), params=["reverse"], defaults={"reverse": False}, ensures=_ens_positions),
         "get_focus": PMethod(Tup(Opt(WIDGET), Int), params=[], ensures=_ens_get_focus),
         "set_focus": PMethod(None, params=["position"], mutates=True, ensures=_ens_set_focus),
         # (widget, position) of the neighbour, or (None, None) at the end of the list; functions of the walker's state.
@@ -58,7 +95,7 @@ class ListWalkerProtocol(Protocol):
         "get_prev": PMethod(Tup(Opt(WIDGET), Int), params=["position"], ensures=_ens_neighbour),
         "get_next": PMethod(Tup(Opt(WIDGET), Int), params=["position"], ensures=_ens_neighbour),
     }
-    has = {"get_focus": True, "set_focus": True, "get_prev": True, "get_next": True}
+    has = {"get_focus": True, "set_focus": True, "get_prev": True, "get_next": True, "positions": "uf"}
 
     def call(self, ip, st, recv, name, args, kwargs):
         if name == "set_focus":
@@ -68,7 +105,12 @@ class ListWalkerProtocol(Protocol):
             if k > 0:
                 st.event("call", recv, name, {"position": args[0] if args else kwargs["position"]}, "raised")
                 raise PyRaise(SExc((IndexError, KeyError)[k - 1], ("<walker refused the position>",), site="opaque ListWalker.set_focus"))
-        return super().call(ip, st, recv, name, args, kwargs)
+        r = super().call(ip, st, recv, name, args, kwargs)
+        if name in ("get_prev", "get_next") and isinstance(r[1], V.SInt):
+            # the position component may be compared with None by the code (`get_next(pos) == (None, None)` in
+            # ListBox.ends_visible / _keypress_page_up): None is modelled by NOPOS, and the comparison must say so
+            r = (r[0], V.SIntOrNone(r[1].e, NOPOS))
+        return r
 
 
 PROTOCOLS["ListWalker"] = ListWalkerProtocol()
@@ -101,7 +143,10 @@ def walker_focus(s, when="now"):
         ver = st.ghost.get("ver_post", st.ghost.get("ver", {})).get(str(recv.e), 0)
     else:
         ver = P.version(st, recv)
-    return P.uf_value(st, "get_focus", recv, [], P.methods["get_focus"].result, ver)
+    r = P.uf_value(st, "get_focus", recv, [], P.methods["get_focus"].result, ver)
+    for f in P.methods["get_focus"].ensures(st, recv, {}, r):  # the protocol's own clauses for this answer
+        st.assume(f)
+    return r
 
 
 def focus_at(s, when, position):
@@ -123,12 +168,7 @@ def lb_ok(s):
     return both(s.offset_rows >= 0, 0 <= inum, inum < iden)
 
 
-@contract(LBX + "ListBox.update_pref_col_from_focus", property=(), assumed=True,
-          notes="remembers the focus widget's preferred column (get_pref_col / get_cursor_coords of the focus widget) in self.pref_col; moves no focus")
-class lb_update_pref_col:
-    self_shape = LISTBOX
-    params = dict(size=Tup(Int, Int))
-    modifies = ("pref_col",)
+# ListBox.update_pref_col_from_focus: verified contract in contracts/C07_keys.py (it was an assumed contract here).
 
 
 def _shift_stored(old, s, a, tgt_rows):
